@@ -15,6 +15,18 @@ pub fn base_module(g: &Grammar, t: &dyn Fn(&str, &str) -> String) -> String {
     base_module_ex(g, t, false)
 }
 
+thread_local! {
+    /// build the base module with one AXIS_DESCR more than the type permits on C and TC (positions SURPLUS_AXIS_DESCR.*)
+    static SURPLUS: std::cell::Cell<bool> = const { std::cell::Cell::new(false) };
+}
+
+pub fn base_module_surplus(g: &Grammar, t: &dyn Fn(&str, &str) -> String) -> String {
+    SURPLUS.with(|s| s.set(true));
+    let r = base_module_ex(g, t, false);
+    SURPLUS.with(|s| s.set(false));
+    r
+}
+
 /// `extras`: one more, unreferenced, element at the end of every list that the editing histories work on
 pub fn base_module_ex(g: &Grammar, t: &dyn Fn(&str, &str) -> String, extras: bool) -> String {
     let ad = |prefix: &str, attr: &str, refkid: Option<KSpec>| {
@@ -93,6 +105,19 @@ pub fn base_module_ex(g: &Grammar, t: &dyn Fn(&str, &str) -> String, extras: boo
             .kid(kl("TRANSFORMER_IN_OBJECTS", &[&t("TRANSFORMER.TRANSFORMER_IN_OBJECTS", "C2")]))
             .kid(kl("TRANSFORMER_OUT_OBJECTS", &[&t("TRANSFORMER.TRANSFORMER_OUT_OBJECTS", "C2")])),
     ];
+    if SURPLUS.with(|s| s.get()) {
+        // a MAP takes two AXIS_DESCR: the third one is surplus, its references are examined all the same
+        for el in elems.iter_mut() {
+            if (el.tag == "CHARACTERISTIC" && el.name == "C") || el.tag == "TYPEDEF_CHARACTERISTIC" {
+                let prefix = format!("{}.SURPLUS_AXIS_DESCR", el.tag);
+                let mut a = ks("AXIS_DESCR", &[("attribute", "COM_AXIS"), ("input_quantity", &t(&format!("{prefix}.input_quantity"), "M")), ("conversion", &t(&format!("{prefix}.conversion"), "CM"))]);
+                a.set.push(("lower_limit".into(), "1".into()));
+                a.set.push(("upper_limit".into(), "2".into()));
+                a = a.with(ks("AXIS_PTS_REF", &[("axis_points", &t(&format!("{prefix}.AXIS_PTS_REF"), "AX"))]));
+                el.kids.push(a);
+            }
+        }
+    }
     if extras {
         for tag in ["MEMORY_SEGMENT", "UNIT", "COMPU_TAB", "COMPU_VTAB", "COMPU_VTAB_RANGE", "COMPU_METHOD", "RECORD_LAYOUT", "MEASUREMENT", "AXIS_PTS", "CHARACTERISTIC", "TYPEDEF_AXIS", "TYPEDEF_CHARACTERISTIC", "TYPEDEF_MEASUREMENT", "TYPEDEF_STRUCTURE", "INSTANCE", "FUNCTION", "GROUP", "TRANSFORMER"] {
             let mut x = e(tag, &format!("ZZ_{tag}"), "c1");
@@ -157,6 +182,16 @@ pub const POSITIONS: &[(&str, &str)] = &[
     ("TRANSFORMER.TRANSFORMER_OUT_OBJECTS", "obj"),
 ];
 
+/// positions inside an AXIS_DESCR beyond the number the characteristic type permits (built by base_module_surplus)
+pub const SURPLUS_POSITIONS: &[(&str, &str)] = &[
+    ("CHARACTERISTIC.SURPLUS_AXIS_DESCR.input_quantity", "obj-iq"),
+    ("CHARACTERISTIC.SURPLUS_AXIS_DESCR.conversion", "cm"),
+    ("CHARACTERISTIC.SURPLUS_AXIS_DESCR.AXIS_PTS_REF", "obj"),
+    ("TYPEDEF_CHARACTERISTIC.SURPLUS_AXIS_DESCR.input_quantity", "obj-iq"),
+    ("TYPEDEF_CHARACTERISTIC.SURPLUS_AXIS_DESCR.conversion", "cm"),
+    ("TYPEDEF_CHARACTERISTIC.SURPLUS_AXIS_DESCR.AXIS_PTS_REF", "obj-this"),
+];
+
 /// alternative targets for a namespace class: (name, expected: None = no report, Some(n) = a report naming n)
 fn alternatives(class: &str) -> Vec<(String, Option<String>)> {
     let missing = |n: &str| (n.to_string(), Some(n.to_string()));
@@ -201,6 +236,8 @@ fn xref_targets(rep: &[A2lError]) -> (BTreeSet<String>, Vec<String>) {
             }
             // a group that lost its only parent / gained a second one is a consequence of the corruption
             A2lError::GroupStructureError { .. } => {}
+            // (the surplus family has one AXIS_DESCR too many on purpose)
+            A2lError::ContentError { description, .. } if description.contains("AXIS_DESCR") && description.starts_with("Expected") => {}
             other_e => other.push(other_e.to_string()),
         }
     }
@@ -517,6 +554,37 @@ pub fn run(tier: &str) -> Run {
             let a = alt.clone();
             let text = base_module(&g, &move |id, d| if id == p { a.clone() } else { d.to_string() });
             cases.push(Case11 { label: format!("{pos} -> {alt}"), pos: pos.to_string(), text, expect });
+        }
+    }
+    for (pos, class) in SURPLUS_POSITIONS {
+        for (alt, expect) in alternatives_all(class) {
+            let p = pos.to_string();
+            let a = alt.clone();
+            let text = base_module_surplus(&g, &move |id, d| if id == p { a.clone() } else { d.to_string() });
+            cases.push(Case11 { label: format!("{pos} -> {alt}"), pos: pos.to_string(), text, expect });
+        }
+    }
+    {
+        let text = base_module_surplus(&g, &|_, d| d.to_string());
+        cases.push(Case11 { label: "base module with a surplus AXIS_DESCR".into(), pos: "surplus-base".into(), text, expect: None });
+    }
+    // every case again inside a project with a second, consistent module (in front of and behind the module under test) that
+    // uses the same names and instantiates the typedef TC directly: nothing may leak from one module into another
+    {
+        let other = {
+            let a = base.find("/begin MODULE").unwrap_or(0);
+            let b = base.rfind("/end MODULE").map(|x| x + "/end MODULE".len()).unwrap_or(base.len());
+            base[a..b].replacen("/begin MODULE m ", "/begin MODULE other ", 1).replacen("/end MODULE", "/begin INSTANCE IX \"\" TC 0x0 /end INSTANCE\n  /end MODULE", 1)
+        };
+        let n0 = cases.len();
+        for i in 0..n0 {
+            let t = &cases[i].text;
+            let (Some(a), Some(b)) = (t.find("/begin MODULE"), t.rfind("/end MODULE")) else { continue };
+            let b = b + "/end MODULE".len();
+            let before = format!("{}{}\n  {}{}", &t[..a], other, &t[a..b], &t[b..]);
+            let after = format!("{}{}\n  {}{}", &t[..a], &t[a..b], other, &t[b..]);
+            cases.push(Case11 { label: format!("{} [second module in front]", cases[i].label), pos: format!("{}+module-before", cases[i].pos), text: before, expect: cases[i].expect.clone() });
+            cases.push(Case11 { label: format!("{} [second module behind]", cases[i].label), pos: format!("{}+module-after", cases[i].pos), text: after, expect: cases[i].expect.clone() });
         }
     }
     if thorough {
